@@ -337,14 +337,15 @@ theorem augment_reported_phase (R : Res) (order : List Nat) (fuel : Nat) (s : PS
 /-- For `processAll` itself.  `phaseStart reg opts plug` is the state and module order with which
 `processAll` enters the augment phase (`none`: it stops before, with errors from linking,
 identities, typedefs or conversion).  From that state — provided what reaches the phase is well
-formed (`PhaseInput`: plain augment paths, no augment entry twice, every tree with augments
-visited and present, one row per tree) — every pending augment is applied (by the loop, or by the
+formed (`PhaseInput`: plain augment paths, no augment entry twice, the tree of every module with
+augments present, one row per tree; that the loop's module order mentions every tree with augments
+is proved: `phaseStart_cover`) — every pending augment is applied (by the loop, or by the
 leftover pass) or `processAll` returns errors, and a colliding application makes `processAll`
 return errors. -/
 theorem augment_reported (reg : Registry) (opts : Opts) (plug : Plug) :
     (phaseStart reg opts plug = none → ∃ errs, errs ≠ [] ∧ (processAll reg opts plug).errors = canonErrs errs) ∧
     (∀ s order, phaseStart reg opts plug = some (s, order) → allErrs s.forest = [] ∧
-      (PhaseInput reg s order →
+      (PhaseInput reg s →
         let fuel := s.pending.foldl (fun n p => n + p.2.length) 0 + 2
         let ph := phaseR (Res.ofReg reg) order fuel s
         (∀ id, ∀ a ∈ s.pendingOf id,
